@@ -61,6 +61,26 @@ namespace vc
     };
     vleaf* leaf_by_tag(int tag);
 
+    // the same allocator with user-specialised propagation traits: containers keep their allocator on
+    // copy and move assignment and exchange it on swap
+    struct vleaf_np : vleaf
+    {
+        using vleaf::vleaf;
+    };
+    vleaf_np* np_leaf_by_tag(int tag);
+    template <class Leaf>
+    Leaf& leaf_ref(int tag);
+    template <>
+    inline vleaf& leaf_ref<vleaf>(int tag)
+    {
+        return *leaf_by_tag(tag);
+    }
+    template <>
+    inline vleaf_np& leaf_ref<vleaf_np>(int tag)
+    {
+        return *np_leaf_by_tag(tag);
+    }
+
     // ---- element type: Size bytes, alignment Align, value in the first bytes -------------------
     template <std::size_t Size, std::size_t Align>
     struct alignas(Align) E
@@ -118,6 +138,7 @@ namespace vc
         virtual bool        twin_ok(int slot)            = 0; // same contents as the std::allocator twin
         virtual int         eq(int a, int c)             = 0; // get_allocator() == get_allocator()
         virtual std::size_t node_constant()              = 0; // the library's X_node_size<T>::value (0 = none)
+        virtual int         propagation()                = 0; // bit0 copy assignment, bit1 move assignment, bit2 swap (as the allocator's traits declare)
     };
 
     using Factory = std::function<IBoxSet*()>;
@@ -130,4 +151,23 @@ namespace vc
         }
     };
 } // namespace vc
+
+namespace foonathan
+{
+    namespace memory
+    {
+        template <>
+        struct propagation_traits<vc::vleaf_np>
+        {
+            using propagate_on_container_swap            = std::true_type;
+            using propagate_on_container_move_assignment = std::false_type;
+            using propagate_on_container_copy_assignment = std::false_type;
+            template <class AllocReference>
+            static AllocReference select_on_container_copy_construction(const AllocReference& alloc)
+            {
+                return alloc;
+            }
+        };
+    } // namespace memory
+} // namespace foonathan
 #endif
